@@ -266,14 +266,11 @@ func runC05(c *Ctx, r *Report) {
 			addFn(fn)
 		}
 		isKeysCall := func(fn *Fn, e ast.Expr) bool {
-			e = ast.Unparen(e)
-			if id, ok := e.(*ast.Ident); ok {
-				if o := p.ObjOf(fn, id); o != nil {
-					if d := p.SoleDef(p.EnclosingFn(id), o); d != nil {
-						e = ast.Unparen(d)
-					}
-				}
+			if keysCollection(p, fn, e, 0) != nil {
+				return true
 			}
+			// Keys() of something that is not a plain variable (a field, a call result)
+			e = ast.Unparen(peelSliceCopy(p, fn, e))
 			call, ok := e.(*ast.CallExpr)
 			if !ok {
 				return false
